@@ -140,7 +140,7 @@ CHECKS = {
               "ENABLE/DISABLE of random classes; READ; non-READ request; reconnect close/pre-empt}; rules U1-U8 are evaluated afterwards over the virtual-time-stamped log of every unsolicited and solicited fragment; "
               "the C03 driver (unsolicited selection and U1 on data) runs as a second part. distinct = (retry limit, timeout, delay, number of unsolicited transmissions, null confirmed) tuples"),
         runs=[dict(check="c14", scale=10, timeout_s=900), dict(check="c03", timeout_s=900, scale=4)],
-        required=["U1_fresh_null_sequence_ok", "null_confirmed_scenarios", "U2_data_responses_checked", "U4_retry_ok", "U5_retry_delay_ok", "U7_non_read_immediate_ok", "U7_deferred_read_served_ok", "U7_read_idle_ok", "U8_prompt_unsolicited_ok",
+        required=["long_retry_delay_waited", "U1_fresh_null_sequence_ok", "null_confirmed_scenarios", "U2_data_responses_checked", "U4_retry_ok", "U5_retry_delay_ok", "U7_non_read_immediate_ok", "U7_deferred_read_served_ok", "U7_read_idle_ok", "U8_prompt_unsolicited_ok",
                   "new_series_after_confirm", "new_series_after_reconnect", "new_series_after_disable"],
         thorough_scale=25.0,
         abnormal_exit_is_violation=True,
